@@ -12,7 +12,7 @@ Shared (scheduling-relevant) classes are the permanent files and their markers.
 import os
 
 SHARED = {"obj", "pidref", "cidref", "doc", "objdel", "pidrefdel", "cidrefdel", "docdel",
-          "other"}
+          "docdel2", "docdel3", "other"}
 
 
 def _strip_delete(name):
@@ -74,7 +74,7 @@ def make_classifier(root, inst):
             name, dele = _strip_delete(parts[-1])
             pf = inst.doc_rev.get((d, name))
             x = "%s/%s" % pf if pf else "%s/?" % inst.pidhash_rev.get(d, "?")
-            return ("docdel" if dele else "doc", x)
+            return (("docdel" if dele == 1 else "docdel%d" % dele) if dele else "doc", x)
         return ("other", rel)
 
     return classify
